@@ -14,6 +14,10 @@ import vlib, corpus, svgen, tree, treecheck, pp
 # number): the end of input right behind it is where a streaming-style parser would ask for more instead of failing
 JUNK = ["\n@@@", "\nend", "\nmodule half (input a", "\n) ] }", "\n`celldefine\n@", "\nmodule c; initial $fini", "\nmodule d; localparam P = $clog2", "\nmodule e; wire [7"]
 LIBJUNK = ["\n@@@", "\nlibrary", "\n) )"]
+# suffixes that BEGIN like an optional trailing part of some construct (an end label, a parameter assignment, a port list,
+# a dimension, a delay ...) but cannot be completed: the optional part must be given up, not the construct in front of it
+# (round-6 seeded change: after `endmodule :` an identifier was demanded once the colon had been seen)
+JUNK2 = ["\n:", "\n: 1", "\n::", "\n:=", "\n: module", "\n#", "\n# (", "\n(", "\n[", "\n,", "\n.", "\n=", "\n@ (", "\n'", "\n{", "\n: /* c */", " :", "\n: $"]
 
 
 def damage(text, rng):
@@ -81,6 +85,8 @@ def run(tier, seed):
         junk = JUNK if kind == "sv" else LIBJUNK
         calls = [{"fn": "two_step_%s_str" % fam, "path": "t.sv", "text": text},
                  {"fn": "two_step_%s_str" % fam, "path": "t.sv", "text": text, "allow_incomplete": True, "probe_nodes": 3}]
+        if kind == "sv":
+            junk = junk + (JUNK2 if not quick else [JUNK2[(i + d) % len(JUNK2)] for d in (0, 5, 11)])
         for j in junk:
             calls.append({"fn": "two_step_%s_str" % fam, "path": "t.sv", "text": text + j, "allow_incomplete": True})
         hcases.append({"id": i, "calls": calls, "fresh_each": True})
